@@ -91,3 +91,26 @@ Definition corr2_facts : bool :=
   (* (iii) conjugating with the EXACT inverse word keeps (8,4,.) *)
   xorder_ok (gr [8; 4; 4]%nat) T25 (of_scheme (corrector_word (corrector_calls 7 true) ++ corrector2_word true) ++ mk_kernel ++
                                    of_scheme (inv_word (corrector2_word true) ++ corrector_word (corrector_calls 7 false))).
+
+(* ------------------------------------------------------------------ round 3: the "lazy implementer's" kicks
+   WHFast LAZY kernel:  p += tau F(q + sigma F(q)),            tau = lazy_wh_kick dt,  sigma = lazy_wh_disp dt^2
+   SABA CL corrector:   p += lambda (F(q + sigma F(q)) - F(q)), lambda = cc lazy_saba_factor dt, sigma = lazy_saba_disp dt^2
+   (F = -grad V the kick direction).  By Taylor,  F(q + sigma F) = F + sigma (F.grad)F + O(sigma^2),  and
+   (F.grad)F = grad(|F|^2/2) is the gradient belonging to [B,[A,B]]/2: the kick is
+        exp( tau B + (tau sigma / 2) [B,[A,B]] )  composed with a remainder of size tau sigma^2 |F|^2 |d^2F| ~ eps^3 dt^5,
+   which is NOT a Hamiltonian flow in general (the lazy kick is only approximately symplectic) and therefore has no
+   representative in the algebra; it has three factors of the perturbation and degree 5, i.e. it lies beyond every grading
+   (.., .., 4) proved for the modified-kick schemes.  What is decided here: the LEADING (symplectic) part of each lazy scheme,
+   built from the regenerated constants, IS the corresponding modified-kick word, exactly.  The first-order Taylor term is
+   the theorem C01_jerk_is_directional_derivative (for the N-body pair force); the O(sigma^2) bound is not proved. *)
+Definition lazy_v (kick disp : Z) : Z := kick * disp * gen_SC / 2.       (* (tau sigma / 2) * SC^3 *)
+Definition whfast_lazy_kernel_leading : xscheme :=
+  [XE false half; XK lazy_wh_kick (lazy_v lazy_wh_kick lazy_wh_disp); XE false half].
+Definition saba_cl_kick_leading (row : nat) : xop :=
+  XK 0 (lazy_v (nthZ saba_cc row * lazy_saba_factor / gen_SC) lazy_saba_disp).
+Definition saba_cl_word_leading (row : nat) : xscheme :=
+  saba_cl_kick_leading row :: of_scheme (saba_word (Z.of_nat row)) ++ [saba_cl_kick_leading row].
+Definition lazy_divisions_exact : bool :=
+  Z.eqb ((lazy_wh_kick * lazy_wh_disp * gen_SC) mod 2) 0 &&
+  forallb (fun row => Z.eqb ((nthZ saba_cc row * lazy_saba_factor) mod gen_SC) 0 &&
+                      Z.eqb ((nthZ saba_cc row * lazy_saba_factor / gen_SC * lazy_saba_disp * gen_SC) mod 2) 0) [0; 1; 2; 3]%nat.
